@@ -202,6 +202,44 @@ def size_part(run):
         if mdl is not None:
           run.violation(dict(clause="size_model", case=case), dict(model=str(mdl)[:300]), dict(clause="size_model", case=case, model=mdl))
       run.configs.append("size:%s" % case)
+    # histories: one target object scores a sequence of trials (as the hyper-model does): every get_trial() reports the size
+    # of the model it was given, whatever was scored before; the reference stays that of the first model
+    kb2, bb2, ab2 = z3.Ints("kernel_bits_2 bias_bits_2 act_bits_2")
+    base2 = base + [kb2 >= 1, kb2 <= 16, bb2 >= 1, bb2 <= 16, ab2 >= 1, ab2 <= 16]
+
+    def qdense_model(k_, b2_, a2_):
+      inp = named("InputLayer")()
+      inp.name, inp.output = "in", OutS((None, S(a)))
+      d = named("QDense")()
+      d.name, d.output = "d", OutS((None, S(b_)))
+      d.activation = QS(S(a2_))
+      d.get_weights = lambda: [WS((S(a), S(b_))), WS((S(b_),))]
+      d.get_quantizers = lambda: [QS(S(k_)), QS(S(b2_))]
+      m = named("Model")()
+      m.layers = [inp, d]
+      return m, k_ * (a * b_) + b2_ * b_ + ib * a + a2_ * b_
+    m1, want1 = qdense_model(kb, bb, ab)
+    m2, want2 = qdense_model(kb2, bb2, ab2)
+
+    def hist():
+      f = fb.ForgivingFactorBits.__new__(fb.ForgivingFactorBits)
+      f.stress, f.input_bits, f.output_bits, f.ref_bits = 2, S(ib), S(ob), S(ref)
+      f.ref_size, f.config = {}, {"default": ["parameters", "activations"]}
+      r1 = f.get_reference(m1)
+      t1 = f.get_trial(m1)
+      t2 = f.get_trial(m2)
+      r2 = f.get_reference(m2)
+      return r1, t1, t2, r2, f.trial_size
+    with pysym.shadow(fb):
+      paths, limits = pysym.explore(hist, base=base2)
+    for pc, why in limits:
+      run.inconclusive_("path limit in the trial history: %s" % why)
+    for pi, (pc, (r1, t1, t2, r2, ts), facts) in enumerate(paths):
+      bad = z3.Or(lift(t1) != want1, lift(t2) != want2, lift(ts) != want2, lift(r1) != 2 * want1, lift(r2) != 2 * want1)
+      v, mdl = harness.z3_query(run, "history_p%d" % pi, list(pc), [bad], dict(clause="trial_history"))
+      if mdl is not None:
+        run.violation(dict(clause="trial_history"), dict(model=str(mdl)[:300]), dict(clause="trial_history", model=mdl))
+    run.configs.append("size:history(reference, trial, trial, reference)")
   finally:
     fb.np = real_np
     fb.get_quantizer = real_gq
@@ -226,9 +264,10 @@ def run(tier, seed):
     import traceback
     traceback.print_exc()
     r.inconclusive_("harness error: %r" % (e,))
-  r.functions = ["ForgivingFactor.delta", "ForgivingFactorBits._param_size", "ForgivingFactorBits._act_size", "ForgivingFactorBits.compute_model_size", "ForgivingFactorBits.get_reference"]
+  r.functions = ["ForgivingFactor.delta", "ForgivingFactorBits._param_size", "ForgivingFactorBits._act_size", "ForgivingFactorBits.compute_model_size", "ForgivingFactorBits.get_reference", "ForgivingFactorBits.get_trial"]
   r.bounds = ["delta: reference/trial sizes > 0, rate > 1, delta_p, delta_n > 0 - symbolic reals; two trial sizes for strict monotonicity",
               "size model: dense / conv / activation stand-in layers with symbolic dimensions (<= 64) and symbolic bit widths",
+              "history: one target object, get_reference / get_trial / get_trial / get_reference on two models with independent symbolic bit widths",
               "NOT covered: AutoQKHyperModel._get_quantizer / quantize_model (search-space clauses): qkeras.autoqkeras cannot be imported here"]
   r.assumptions = ["np.log: strictly increasing with log(1) = 0 (contract stub)", "layers are stand-ins named like the real classes",
                    "the qkeras.autoqkeras package __init__ is not executed (it imports keras-tuner, which fails under the pinned environment)"]
